@@ -1,3 +1,4 @@
+pub mod alloc;
 pub mod conv;
 pub mod gen;
 pub mod guard;
